@@ -398,9 +398,14 @@ def classify(m, stage, A, Rm, conn0, ctx0, splits, origin, base_r, got_r):
             return "split-unreachable-pairs"
     if m.method == "nsi_arenas_betweenness" and "twinness" in m.name and not conn0:
         return "split-disconnected-twinness"
-    if m.method in RANDOM_WALK:
+    if m.method in RANDOM_WALK and not isinstance(base_r, Exc) and not isinstance(got_r, Exc):
+        # only if every mismatching entry belongs to a twin of a split node that was isolated
         S = (np.asarray(A) + np.asarray(A).T)
-        if any(S[origin[v]].sum() == 0 for v, _ in splits):
+        iso = {int(origin[v]) for v, _ in splits if S[origin[v]].sum() == 0}
+        exp = np.asarray(base_r)[origin]
+        scale = max(1.0, float(np.max(np.abs(exp[np.isfinite(exp)]))) if np.isfinite(exp).any() else 1.0)
+        bad = ~np.isclose(exp, got_r, rtol=m.rtol, atol=m.rtol * scale, equal_nan=True)
+        if iso and bad.any() and all(int(origin[i]) in iso for i in np.nonzero(bad)[0]):
             return "split-singleton-component"
     clause = "split" if stage == 1 else "split-iterated"
     if isinstance(base_r, Exc) != isinstance(got_r, Exc):
@@ -453,7 +458,7 @@ def run_group(group, measures=None):
     M_l = [m for m in measures if m.needs_lists]
     conn0 = is_connected(A)
     Rm = reach(A)
-    isolated_any = bool(((A + A.T).sum(axis=1) == 0).any())
+
 
     def mkcase(splits, lists):
         return {"A": A.tolist(), "w": w.tolist(), "attrs": jsonable(attrs), "directed": directed,
@@ -669,25 +674,34 @@ def coverage_notes(rep, measures):
 
 SCOPE = (
     "Real code, harness-made twin splits. Exhaustive: every labelled simple undirected graph with "
-    "n<=4 (thorough: n<=5) and every labelled directed graph with n<=3 (thorough: n<=4), every node "
-    "as the split node, iterated to depth 2 (second split re-splits a twin or splits another node), "
-    "node weights from the grid {1/2,1,3/2,2,3} and uniform(0.2,3) by seed, proportions from "
-    "{1/4,1/2,2/3} and uniform(0.05,0.95), link attribute 'lw' from {1/2,1,2,8} or uniform(0.3,3), "
-    "every ordered bipartition for the cross/internal/sources-targets variants (thorough; quick: all "
-    "for n<=3, 2 per weighting for n=4); plus 24 (thorough 240) seeded random graphs with 6..12 (..24) "
-    "nodes. Measures: every nsi_* method of Network and InteractingNetworks incl. key / typical_weight "
-    "(0.37) / in / out / bil / motif / sources-targets / exclude_neighbors / stopping_mode / "
-    "add_local_ends / alpha variants, the nsi_* entries of distance_based_measures(replace_inf_by=inf), "
-    "and Network.splitted_copy against the harness transformation. Tolerances (all float64): 1e-9 "
-    "relative (atol 1e-9*max|value|), 1e-7 for the LU/inverse based random-walk betweennesses, 1e-6 for "
-    "nsi_eigenvector_centrality (ARPACK tol 1e-8, connected undirected graphs only).")
+    "2<=n<=4 (thorough: n<=5) and every labelled directed graph with 2<=n<=3 (thorough: n<=4), every "
+    "node as the split node, iterated to depth 2 (the second split re-splits the old twin, the new "
+    "twin or another node), every ordered bipartition (distributed over the split nodes) for the "
+    "cross/internal/sources-targets variants; node weights from the grid {1/2,1,3/2,2,3} with "
+    "proportions from {1/4,1/2,2/3} and link attribute 'lw' from {1/2,1,2,8}, and/or uniform(0.2,3) "
+    "weights with uniform(0.05,0.95) proportions and uniform(0.3,3) link weights by seed (both "
+    "weightings for the smaller sizes, one of them by seed for the largest undirected/the two "
+    "largest directed sizes); plus 30 (thorough 300) seeded random graphs with 6..12 (..24) nodes, "
+    "3 split nodes and 3 (6) random bipartitions each. Measures: every nsi_* method of Network and "
+    "InteractingNetworks incl. key / typical_weight (0.37) / in / out / bil / motif / sources-targets "
+    "/ exclude_neighbors / stopping_mode / add_local_ends / alpha variants, the nsi_* entries of "
+    "distance_based_measures(replace_inf_by=inf), and Network.splitted_copy against the harness "
+    "transformation. Tolerances (all float64): 1e-9 relative (atol 1e-9*max|value|), 1e-7 for the "
+    "LU/inverse based random-walk betweennesses, 1e-6 for nsi_eigenvector_centrality (ARPACK tol "
+    "1e-8, connected undirected graphs only).")
 RULE = (
     "One evaluation = one (measure variant, case, split depth) comparison or one splitted_copy "
     "clause. A case = (graph, weights, link weights, split sequence, bipartition); it is distinct by "
     "that tuple and counted non-trivial when the graph has a link and the first split node is not "
     "isolated. A mismatch is discarded as ill-conditioned (counted in 'skipped') only if perturbing "
-    "the ORIGINAL network's weights by 1e-11 relative moves the original value by more than a tenth "
-    "of the tolerance (corrected variants near a zero denominator).")
+    "the ORIGINAL network's weights by tolerance*1e-5 relative (1e-14) moves the original value by "
+    "more than a tenth of the tolerance, i.e. condition number > 1e4 (corrected variants near a zero "
+    "denominator, histogram bin-count jumps). Clauses: split / split-iterated (depth 1 / 2), "
+    "-raises (exception on one side only), and three clauses for input classes on which the current "
+    "code violates the property: split-unreachable-pairs (cross/internal closeness and cross average "
+    "path length replace unreachable pairs by N-1), split-singleton-component (random-walk "
+    "betweennesses set one-node components to 0), split-disconnected-twinness (nsi_arenas_betweenness "
+    "indexes the global twinness matrix with component-local indices).")
 
 
 def emit_failures(rep, failures):
